@@ -18,7 +18,8 @@ ASSUMPTIONS = ["scipy cubic-spline interpolation is exact at knots up to roundin
 # the share of cases also run under python -O (1 = all): the anchor code validates with assert statements
 OPT_SUBSET = {"quick": 1, "thorough": 2}
 REQUIRED_OBS = {"endurance_calls": 100, "queries": 300, "level_gt0": 30, "nonzero_origin": 100, "outside_refused": 30, "outside_within_a_cell": 100,
-                "multi_field": 100}
+                "multi_field": 100,
+                "queries_on_the_ratio4_level": 40}
 TIMEOUT = {"quick": 300, "thorough": 1500}
 
 
@@ -41,6 +42,15 @@ def cases(tier, seed):
         if i % 6 == 5:      # far from the origin: coordinate / cell size of 1e5 .. 1e7
             g["origin"] = [rng.choice([1.0e5, -3.0e5, 2.5e6]) for _ in range(3)]
         cs.append({"gen": g, "sel_seed": seed * 71 + i, "npts": 40 if tier == "quick" else 90, "fmt": dict(ref_ratio_extra=rng.choice([0, 0, 1, 3]), trailing_blank=rng.random() < 0.7, close_blank=rng.random() < 0.3, floatfmt=rng.choice(["repr", "17g"]))})
+    # refinement ratios that differ between levels (Header ratio line `2 4`, or `4` alone for two levels): the
+    # finest level sits on an index space four times finer than the level below
+    for k in range(6 if tier == "quick" else 400):
+        g = dict(seed=rng.randrange(10 ** 9), ndims=3, nlevels=3 if k % 3 else 2, bf=rng.choice([4, 3]),
+                 nfields=rng.randint(1, 3), base_blocks=(1, 2), payload=["random", "trace"][k % 2])
+        if k % 4 == 0:
+            g["origin"] = [0.0, 0.0, 0.0]
+        cs.append({"gen": g, "ratio4": True, "sel_seed": seed * 71 + 4000 + k, "npts": 40 if tier == "quick" else 90,
+                   "fmt": dict(ref_ratio_extra=rng.choice([0, 0, 1]), floatfmt=rng.choice(["repr", "17g"]))})
     # scale: a box of more than a million cells (queries anywhere inside it, its low faces included)
     for k in range(1 if tier == "quick" else 4):
         cs.append({"scale": "bigbox", "gen": dict(seed=seed * 31 + 1919 + k, nfields=2), "sel_seed": seed * 71 + 1919 + k,
@@ -175,6 +185,10 @@ def run_case(case, work, rec):
                 rec.count("queries_with_a_repeated_field")
             if lv > 0:
                 rec.count("level_gt0")
+            if getattr(m, "ratios", None):
+                rec.count("queries_ratio4_plotfile")
+                if lv == finest:
+                    rec.count("queries_on_the_ratio4_level")
             if origin_nz:
                 rec.count("nonzero_origin")
             if not single:
